@@ -312,10 +312,13 @@ def tensorYamlRoundtrip {d : Nat} (zero : ν) (t : TRep κ ν d) : Option (TRep 
   | some x => tensorLoad zero x
   | none => none
 
-/-- the deprecated loader `Tensor(yamlfile=file)`: same parse, then `setRankInfo` / `setRoot`;
-    `setRoot` asserts that the root is a fiber, so a rank-0 file cannot be loaded this way -/
+/-- the deprecated loader `Tensor(yamlfile=file)`: same parse; a root that is not a fiber
+    (rank 0) is boxed as the root payload, like `Tensor.fromYAMLfile` does — the two loaders
+    agree on everything the property observes (they differ in code, hence two definitions) -/
 def tensorCtorRoundtrip {d : Nat} (zero : ν) (t : TRep κ ν d) : Option (TRep κ ν d) :=
-  if d = 0 then none else tensorYamlRoundtrip zero t
+  match yamlText (tensorDump t) with
+  | some x => tensorLoad zero x
+  | none => none
 
 /-- `Fiber.dump` → text → `Fiber.fromYAMLfile(file, default=x)`: the stored tree comes
     back; every fiber of the result has default `x` (`Fiber.parse` hands it to
